@@ -75,3 +75,60 @@ Example key_iff_nonvacuous :
   key (fun x => x) (info_with [([97], mkA true true)]) <> key (fun x => x) (info_with [([98], mkA true true)]) /\
   key (fun x => x) (info_with ag_ab_c) = key (fun x => x) (info_with ag_a_bc).
 Proof. split; [intros H; discriminate H|reflexivity]. Qed.
+
+(* ------------------------------------------------------------------ executable decisions
+   [code_same]: what the daemon decides (AppKey equality; the hash is taken to separate different texts).
+   [spec_same]: what C04 states -- the identity fields agree and the SETS of supported policies agree.
+   The correspondence stage of the C04 check delivers real APP messages to the real processor and compares,
+   inside Coq, which descriptions were mapped to one application object with [code_same] (model of the
+   code) and with [spec_same] (the property). *)
+Definition same_fields_b (i j : app_info) : bool :=
+  name_eqb (ai_license i) (ai_license j) && name_eqb (ai_appname i) (ai_appname j) &&
+  name_eqb (ai_redirect i) (ai_redirect j) && Bool.eqb (ai_high_security i) (ai_high_security j) &&
+  name_eqb (ai_language i) (ai_language j) && name_eqb (ai_hostname i) (ai_hostname j) &&
+  name_eqb (ai_to_host i) (ai_to_host j) && N.eqb (ai_to_port i) (ai_to_port j).
+
+Definition code_same (i j : app_info) : bool :=
+  same_fields_b i j && name_eqb (hash_preimage (ai_policies i)) (hash_preimage (ai_policies j)).
+
+Definition subset_names (a b : list name) : bool := forallb (fun n => existsb (name_eqb n) b) a.
+Definition spec_same (i j : app_info) : bool :=
+  same_fields_b i j &&
+  subset_names (supported_names (ai_policies i)) (supported_names (ai_policies j)) &&
+  subset_names (supported_names (ai_policies j)) (supported_names (ai_policies i)).
+
+Lemma name_eqb_eq a : forall b, name_eqb a b = true <-> a = b.
+Proof.
+  induction a as [|x a IH]; intros [|y b]; cbn [name_eqb]; try (split; [discriminate|discriminate]); try (split; reflexivity).
+  destruct (N.eqb_spec x y) as [E|E].
+  - rewrite IH. split; [intros ->; subst; reflexivity|intros H; injection H; auto].
+  - split; [discriminate|intros H; injection H; intros; contradiction].
+Qed.
+
+Lemma same_fields_b_iff i j : same_fields_b i j = true <-> same_fields i j.
+Proof.
+  unfold same_fields_b, same_fields. rewrite !andb_true_iff, !name_eqb_eq, Bool.eqb_true_iff, N.eqb_eq. tauto.
+Qed.
+
+(* the executable decision is equality of keys (for the identity "hash", i.e. a hash without collisions) *)
+Theorem code_same_iff i j : code_same i j = true <-> key (fun x => x) i = key (fun x => x) j.
+Proof.
+  unfold code_same. rewrite andb_true_iff, same_fields_b_iff, name_eqb_eq.
+  symmetry. apply key_iff_partial. intros a b H; exact H.
+Qed.
+
+(* they differ exactly on the known finding *)
+Example code_vs_spec :
+  code_same (info_with ag_ab_c) (info_with ag_a_bc) = true /\ spec_same (info_with ag_ab_c) (info_with ag_a_bc) = false /\
+  code_same (info_with ag_ab_c) (info_with ag_ab_c) = true /\ spec_same (info_with ag_ab_c) (info_with ag_ab_c) = true.
+Proof. vm_compute. repeat split. Qed.
+
+(* observations: per case, the descriptions and the class (application object) each was mapped to;
+   returns the pairs (i, j) on which the observation differs from [f] *)
+Fixpoint number_from {A} (n : nat) (l : list A) : list (nat * A) :=
+  match l with [] => [] | x :: r => (n, x) :: number_from (S n) r end.
+Definition pair_mismatches (f : app_info -> app_info -> bool) (ds : list (app_info * nat)) : list (nat * nat) :=
+  let nd := number_from 0 ds in
+  concat (map (fun a => concat (map (fun b =>
+     if Nat.ltb (fst a) (fst b) && negb (Bool.eqb (f (fst (snd a)) (fst (snd b))) (Nat.eqb (snd (snd a)) (snd (snd b))))
+     then [(fst a, fst b)] else []) nd)) nd).
